@@ -445,8 +445,11 @@ def run(tier, seed):
     nshapes, nper = (22, 3) if tier == 'quick' else (160, 4)
     shapes = typed_shapes(rng, nshapes)
     with Scratch() as work:
+        import time as _t
+        ph, t0 = {}, _t.time()
         res = pmap(drive_shape, [(s, seed * 100000 + i, nper) for i, s in enumerate(shapes)], chunksize=1)
         cases = [c for cs in res for c in cs]
+        ph['drive_s'] = round(_t.time() - t0)
         # the structure of every PatternedTensor the library builds while the repository's OWN tensor tests run (hook log
         # collected by the pytest plugin harness/tracer_sp.py): the representation invariant must hold for each
         rt = repo_tests_traced(work, ['test/test_indices.py', 'test/test_multi.py', 'test/test_semirings.py'] +
@@ -458,7 +461,11 @@ def run(tier, seed):
             c['tag'] = ['wf', 'repo_tests']
         o.extra['structures_built_during_repo_tests'] = len(rp)
         cases = cases + rp
+        ph['repo_tests_s'] = round(_t.time() - t0) - ph['drive_s']
+        t1 = _t.time()
         verdicts, st, tr, _ = judge_batch(work / 'judge', 'Trace_Tensor', cases, per_shard_min=400, heap='3g')
+        ph['judge_s'] = round(_t.time() - t1)
+        o.extra['phase_seconds'] = ph
         o.states += st
         o.transitions += tr
         o.absorb_verdicts(cases, verdicts, load_findings())
@@ -474,7 +481,9 @@ def run(tier, seed):
         # the algebra of axis terms behind all of these operations (unify / antiunify / stride / index), on every pair of
         # typed axis lists TLC enumerates for a small catalogue of shapes (spec/AxisAlg.tla)
         from . import c06_axes
+        t2 = _t.time()
         c06_axes.run_part(o, tier, seed, work)
+        ph['axis_algebra_s'] = round(_t.time() - t2)
         o.sample(next(c for c in cases if c['kind'] == 'dense' and len(c['st']['vs']) >= 2))
     return o
 
